@@ -226,12 +226,18 @@ class SRun:
 
         w.loop.extra_events = extra
         w.sched.recording = True
+        for sn in self.scn.get("slow", ()):  # peers that may read slowly: each writer.drain() is a choice point
+            if sn in w.sessions:
+                w.sessions[sn].writer.drain_mode = 2
         t0 = w.loop.time()
         try:
             w.loop.run_until(all_done, horizon=t0 + HORIZON)
         finally:
             w.sched.recording = False
             w.loop.extra_events = None
+            for sn in self.scn.get("slow", ()):
+                if sn in w.sessions:
+                    w.sessions[sn].writer.drain_mode = 0
         npoints = [p.n for p in w.sched.points]
         w.loop.settle()
         # (a) completion
